@@ -273,6 +273,9 @@ public:
 
     friend Wrapper operator*(const Wrapper &a, const Wrapper &b)
     {
+        // mul() looks at the leading terms, the zero polynomial has none
+        if (a.dict_.empty() or b.dict_.empty())
+            return Wrapper();
         return Wrapper::mul(a, b);
     }
 
